@@ -209,6 +209,13 @@ int sbdf_cs_read(FILE* f, sbdf_columnslice** out)
 		goto end;
 	}
 
+	if (v < 0)
+	{
+		/* sbdf_cs_skip refuses a negative property count; reading does too */
+		error = SBDF_ERROR_INVALID_SIZE;
+		goto end;
+	}
+
 	t->prop_cnt = v;
 	/* TODO Verify that it is OK to have no properties */
 	if (v > 0)
